@@ -21,7 +21,7 @@ LEVEL_TEXT = ('Exploration: multi-document streams (2-400 documents, sizes from 
               'size being calibrated per back-end on a short-token stream; a malformed k-th document must be preceded by the '
               'delivery of documents 0..k-1; after close(), abandonment (also in the middle of a document) or an error the stream must be '
               'unreferenced at once, with the cyclic garbage collector switched off (weakref dead). Streams include runs of multi-byte '
-              'characters only (offsets in bytes for binary delivery) and a real io.StringIO subclass.')
+              'characters only (offsets in bytes for binary delivery) and a real io.StringIO subclass.' + ' Calling the function must read nothing, and an iterator abandoned before its first item must release the stream as well.')
 LEVEL_NOTE = ('Held on the streams and schedules generated; the bound is counted in units handed out by read(), never in time.')
 TECHNIQUE = 'runtime monitoring: instrumented caller stream (read log + offsets at each yield) against construction-known decision offsets; weakref liveness probe'
 DESIGN_REF = 'DESIGN.md section 3, C18'
